@@ -752,6 +752,42 @@ func (e *Engine) specFunc(y *ECall, env *evalEnv) (Val, bool) {
 			return Val{S: comp, T: bvT}, true
 		}
 		return Val{S: comp, T: specInt}, true
+	case "jsonlen":
+		// jsonlen("pkg.Type.Field.Sub", data): length of that slice field in the value json.Unmarshal decodes from data
+		if l, ok := y.Args[0].(*ELit); ok {
+			parts := strings.Split(l.Val, ".")
+			for cut := len(parts) - 1; cut >= 1; cut-- {
+				t := e.prog.lookupType(strings.Join(parts[:cut], "."))
+				if t == nil {
+					continue
+				}
+				var path []int
+				cur := t
+				okp := true
+				for _, fnm := range parts[cut:] {
+					ss := e.vc.structInfo(cur)
+					idx := -1
+					if ss != nil {
+						for i, n := range ss.fnames {
+							if n == fnm {
+								idx = i
+							}
+						}
+					}
+					if idx < 0 {
+						okp = false
+						break
+					}
+					path = append(path, idx)
+					cur = ss.ftypes[idx]
+				}
+				if okp && kindOf(cur) == kSlice {
+					fn, _ := e.jsonLenFn(t, path)
+					return Val{S: app(fn, e.specKey(arg(1), env)), T: specInt}, true
+				}
+			}
+			return e.evalErr("jsonlen: no slice field " + l.Val), true
+		}
 	case "count":
 		// count(store): number of keys of a store
 		if m := arg(0); m.G != nil && m.G.kind == "map" {
